@@ -153,7 +153,7 @@ def check_seq(prop, tier, seed, replay_path=None):
         corpus = []
         cdir = os.path.join(vlib.VERIF, "corpus", prop)
         if os.path.isdir(cdir):
-            for fn in sorted(os.listdir(cdir)):
+            for fn in sorted(f for f in os.listdir(cdir) if f.endswith(".txt")):
                 corpus.append(("corpus:" + fn, 0, open(os.path.join(cdir, fn)).read().splitlines()))
         cases = corpus + [(p, s, seqeng.gen_ops(s, p, n)) for (p, s, n) in seq_plan(prop, tier, seed)]
 
